@@ -4,6 +4,12 @@ NOTES = ("All checks: bin/check <ID> --tier quick|thorough. Exit 0 held / 1 VIOL
          "Specification in spec/, harness in harness/, known findings in known_findings.jsonl; see DESIGN.md.")
 NOT_APPLICABLE = {}
 CHECKS = {
+    "C16": {
+        "level": "model_checking",
+        "technique": "TLA+ Calc spec: calculation AST, the quantity it denotes over exact rationals under three unit/var() environments (dimension vectors for length/angle/time), static classification (must fold / provably incompatible between numbers / stays a calculation) with TLC checking that a folding expression is environment-free; TLC grows expressions operation by operation (MC_Calc); grass's printed result is parsed back into the AST and TLC (Trace_Calc) requires the same quantity under every environment, a plain number where folding is due and an error where units are provably incompatible",
+        "text": "All expressions of depth <= 2 (thorough 3) over unitless, px, in, em, %, vw, deg, s, ms and var() leaves with + - * / and calc/min/max/clamp (two and three arguments): 37 k in the quick tier. Semantic comparison, so a different but equivalent simplification is never an alarm; parentheses, precedence and sign normalisation are covered because the printed text is re-parsed with CSS calc precedence.",
+        "note": "Left open (class 'open'): min()/max() mixing a unitless argument with a dimension (legacy global functions compare them); an error is accepted where the expression has no value CSS can hold (incompatible sums, possible compound units); decimals with > 6 fractional digits are read back as fractions with denominator <= 10000; units are compared only between numbers, as in the reference implementation.",
+    },
     "C14": {
         "level": "model_checking",
         "technique": "TLA+ Lists spec as a machine (abstract list = items, separator incl. 'undecided', brackets; actions append/join/left-join/set-nth with every option; TLC enumerates all operation chains, MC_Lists) and Strings spec over code-point labels (slice/index/insert by the documented index arithmetic; TLC checks slice/insert laws and enumerates all strings x calls x indices, MC_Strings); grass evaluates every call through the global and the sass:list / sass:string spellings; plus a table of nested-key map functions and argument-validation errors",
